@@ -1072,10 +1072,7 @@ def check_sequence(kind, spec, level):
         return True, {}          # quantity text no longer fits the inherited units: nothing to compare
     v1 = VIEW[kind](o1)
     defaults = module_default_ids()
-    shared = [w for i, w in mutable_ids(o1).items() if i in defaults]
-    if shared:
-        return fail("aliasing:%s:module-default" % kind, "the object returned by the %s reader holds (not a copy of) the %s" % (kind, defaults[[i for i in mutable_ids(o1) if i in defaults][0]]),
-                    impl=shared[:3])
+    shared = [defaults[i] for i in mutable_ids(o1) if i in defaults]
     edit_in_place(o1, None)
     o2, err = guarded(lambda: from_d(copy.deepcopy(d)))
     if err is not None:
@@ -1098,6 +1095,9 @@ def check_sequence(kind, spec, level):
     if e1 or e2 or diff(n2, n1):
         return fail("sequence:%s:later-default" % kind, "after that edit, a network dictionary with omitted units is no longer read in the documented default units (µm, s, molecule)",
                     impl=e1 or (diff(n2, n1) and str(diff(n2, n1))[:200]))
+    if shared:
+        return fail("aliasing:%s:module-default" % kind, "the object returned by the %s reader holds (not a copy of) the %s" % (kind, shared[0]),
+                    impl=shared[:3])
     return True, {}
 
 
